@@ -176,6 +176,25 @@ def main(argv=None):
                 tail = "" if ob.get("replayed") else " no-failing-input-found"
                 violations.append(f"VIOLATION property={prop} replay={p}{tail}")
             faults += proof.get("faults", [])
+            if prop in ("C01", "C07"):
+                # the executor's Python semantics against CPython, on the comparison callables (pyvc/crosscheck.py): the
+                # contracts of these functions are stated over the same encoding on both sides, this grounds the encoding
+                try:
+                    from pyvc.crosscheck import run_all
+                    cc = run_all(seed, 60 if tier == "quick" else 600)
+                    tot = {"samples": 0, "agree": 0, "open": 0, "mismatch": 0, "functions": len(cc)}
+                    for fname, st in cc.items():
+                        if "error" in st:
+                            faults.append(f"engine cross-check of {fname} could not run: {st['error']}")
+                            continue
+                        for kk in ("samples", "agree", "open"):
+                            tot[kk] += st[kk]
+                        tot["mismatch"] += len(st["mismatch"])
+                        for mm in st["mismatch"][:2]:
+                            faults.append(f"engine cross-check: executor and CPython disagree on {fname}{mm.get('args')}: {mm}")
+                    proof["engine_crosscheck"] = tot
+                except Exception as e:
+                    faults.append(f"engine cross-check crashed: {e!r}")
 
     # ---- bounded stand-in
     bounded = {}
